@@ -81,17 +81,18 @@ def run(ctx):
                 Fd = F.dense(Y)
                 # the same integer tensor in several presentations: float64 / int64 / int32 cores, an exact power of two in
                 # one core or spread over the cores (entries ~1e-12 .. 1e+18), and unbalanced cores (1e-10 x 1e+10)
-                pres = [('float64', Y, 0), ('int64', [G.astype(np.int64) for G in Y], 0), ('int32', [G.astype(np.int32) for G in Y], 0),
-                        ('core 0 times 2^-40', [G * (2.0 ** -40 if k_ == 0 else 1.) for k_, G in enumerate(Y)], -40),
-                        ('all cores times 2^%d' % (-36 // d), [G * 2.0 ** (-36 // d) for G in Y], (-36 // d) * d),
-                        ('last core times 2^60', [G * (2.0 ** 60 if k_ == d - 1 else 1.) for k_, G in enumerate(Y)], 60),
-                        ('core 0 times 2^-33, core 1 times 2^33', [G * (2.0 ** -33 if k_ == 0 else 2.0 ** 33 if k_ == 1 else 1.) for k_, G in enumerate(Y)], 0)]
+                # (presentation, cores, total exponent, smallest per-core exponent: the accuracy e acts on every core separately)
+                pres = [('float64', Y, 0, 0), ('int64', [G.astype(np.int64) for G in Y], 0, 0), ('int32', [G.astype(np.int32) for G in Y], 0, 0),
+                        ('core 0 times 2^-40', [G * (2.0 ** -40 if k_ == 0 else 1.) for k_, G in enumerate(Y)], -40, -40),
+                        ('all cores times 2^%d' % (-36 // d), [G * 2.0 ** (-36 // d) for G in Y], (-36 // d) * d, -36 // d),
+                        ('last core times 2^60', [G * (2.0 ** 60 if k_ == d - 1 else 1.) for k_, G in enumerate(Y)], 60, 0),
+                        ('core 0 times 2^-33, core 1 times 2^33', [G * (2.0 ** -33 if k_ == 0 else 2.0 ** 33 if k_ == 1 else 1.) for k_, G in enumerate(Y)], 0, -33)]
                 Yorig, Fd0 = Y, Fd
-                for pname, Yp, sp in ([pres[0]] + [pres[1 + (rep + j_) % 6] for j_ in range(2 if quick else 6)]):
+                for pname, Yp, sp, spmin in ([pres[0]] + [pres[1 + (rep + j_) % 6] for j_ in range(2 if quick else 6)]):
                     Fd = Fd0 * 2.0 ** sp
                     Y = Yp
                     try:
-                        Z = teneva.tt_to_qtt(Y, e=1e-14 * 2.0 ** sp, r=100)
+                        Z = teneva.tt_to_qtt(Y, e=1e-14 * 2.0 ** spmin, r=100)
                     except Exception as ex:
                         ctx.violation('tt_to_qtt:raises', 'tt_to_qtt on %s cores raised %s: %s' % (pname, type(ex).__name__, ex))
                         continue
